@@ -357,6 +357,21 @@ def make_spec_builtins(eng):
         v = args[0]
         return v.inner if isinstance(v, VOpt) else v
 
+    def _proj(k):
+        def f(args, kwargs, st, eng):
+            v = eng.deref(args[0], st)
+            if isinstance(v, VTuple) and len(v.elems) > k:
+                return v.elems[k]
+            return fresh(VAL, "noproj")
+        return f
+    S["Fst"] = VFunc("Fst", _proj(0))
+    S["Snd"] = VFunc("Snd", _proj(1))
+
+    @reg("IsPair")
+    def _ispair(args, kwargs, st, eng):
+        v = eng.deref(args[0], st)
+        return VBool(isinstance(v, VTuple) and len(v.elems) == 2)
+
     @reg("b2i")
     def _b2i(args, kwargs, st, eng):
         return VInt(z3.If(eng.truth(args[0], st), 1, 0))
@@ -435,8 +450,15 @@ def _concat_len(args, kwargs, st, eng):
 
 
 def _default_collate_obj():
-    from .absobj import AbsCallable
-    return AbsCallable("torch.default_collate", ())
+    from .absobj import AbsCallable, default_collate_handler
+
+    class _DC(AbsCallable):
+        def call_method(self, name, args, kwargs, st, eng):
+            from .absobj import AbsBatch
+            if name == "__call__" and args and isinstance(eng.deref(args[0], st), AbsBatch):
+                return [(st, default_collate_handler(args, kwargs, st, eng))]
+            return super().call_method(name, args, kwargs, st, eng)
+    return _DC("torch.default_collate", ())
 
 
 LIB_OBJECTS["torch.utils.data.default_collate"] = _default_collate_obj
